@@ -413,3 +413,33 @@ fn rec(prefix: &mut Vec<Op>, ops: &[Op], maxlen: usize, nobj: usize, fs: &mut im
     let _ = extended;
     Ok(())
 }
+
+/// `gc-deep N STACK_MB`: a chain of N objects closed into a cycle, abandoned, collected on a thread with the given stack.
+/// The collector's marking recurses along the chain: on a stack of ordinary size the process dies here.
+pub fn deep(args: &[String]) -> Result<(), String> {
+    let n: usize = args.first().and_then(|a| a.parse().ok()).ok_or("gc-deep N STACK_MB")?;
+    let mb: usize = args.get(1).and_then(|a| a.parse().ok()).ok_or("gc-deep N STACK_MB")?;
+    let h = std::thread::Builder::new()
+        .stack_size(mb << 20)
+        .spawn(move || {
+            let mut m = Machine::new();
+            m.step(Op::Brief);
+            for _ in 0..n {
+                m.step(Op::New);
+            }
+            for i in 0..n {
+                m.step(Op::Edge(i, (i + 1) % n));
+            }
+            for i in 0..n {
+                m.step(Op::Dec(i));
+            }
+            println!("deep built n={n}");
+            let _ = std::io::stdout().flush();
+            m.step(Op::Collect);
+            println!("deep=ok n={n} stack_mb={mb}");
+            let _ = std::io::stdout().flush();
+            std::mem::forget(m);
+        })
+        .map_err(|e| e.to_string())?;
+    h.join().map_err(|_| "deep: panicked".to_string())
+}
